@@ -379,6 +379,7 @@ class Ovld:
         self.__name__ = name
         self._defns = {}
         self._locked = False
+        self._stale = False
         self._lock = threading.RLock()
         self._lock = _verif_make_lock(self._lock)
         self.mixins = []
@@ -453,6 +454,8 @@ class Ovld:
         for mixin in mixins:
             if self.linkback:
                 mixin.children.append(self)
+        if mixins:
+            self._invalidate()
         self.mixins += mixins
         if mixins:
             # If this ovld or a linked child is already in use, rebuild it
@@ -542,14 +545,32 @@ class Ovld:
             except BaseException:
                 # Never leave a partially filled table in service: go back
                 # to the state where the next call builds everything again
-                self._compiled = False
-                if hasattr(self, "dispatch"):
-                    self.dispatch.__code__ = self.dispatch._bootstrap_code
-                    self.dispatch.__defaults__ = None
-                    self.dispatch.__kwdefaults__ = None
+                self._reset_dispatch()
                 raise
 
             self._compiled = True
+            self._stale = False
+
+    def _reset_dispatch(self):
+        """Go back to the unbuilt state: the next call builds again."""
+        self._compiled = False
+        if hasattr(self, "dispatch"):
+            self.dispatch.__code__ = self.dispatch._bootstrap_code
+            self.dispatch.__defaults__ = None
+            self.dispatch.__kwdefaults__ = None
+
+    def _invalidate(self):
+        """Take this ovld and its linked children out of service.
+
+        This is done before the methods change, so that whatever interrupts
+        the change or the rebuild, the next call builds from the methods that
+        are actually registered instead of serving the previous table.
+        """
+        if self._compiled:
+            self._stale = True
+            self._reset_dispatch()
+        for child in self.children:
+            child._invalidate()
 
     def resolve(self, *args):
         """Find the correct method to call for the given arguments."""
@@ -593,6 +614,7 @@ class Ovld:
                 _set(msig, self._defns[sig])
             self._defns[sig] = fn
 
+        self._invalidate()
         _set(sig, fn)
 
         self._update()
@@ -614,11 +636,12 @@ class Ovld:
                 tiebreak = depth.get(base, 0)
                 depth[base] = tiebreak - 1
                 defns[replace(base, tiebreak=tiebreak)] = f
+        self._invalidate()
         self._defns = defns
         self._update()
 
     def _update(self):
-        if self._compiled:
+        if self._compiled or self._stale:
             self.compile()
         for child in self.children:
             child._update()
